@@ -35,13 +35,28 @@ fn get_token_line(token: &Token) -> Option<usize> {
                     .count()
             })
         })
-        .or_else(|| token.get_line_number())
+        .or_else(|| {
+            // a token can span several lines (long strings)
+            token.get_line_number().map(|line| {
+                line + token
+                    .try_read()
+                    .unwrap_or_default()
+                    .chars()
+                    .filter(|c| *c == '\n')
+                    .count()
+            })
+        })
 }
 
 fn last_block_token(block: &Block) -> Option<&Token> {
     block
         .get_tokens()
-        .and_then(|tokens| tokens.final_token.as_ref())
+        .and_then(|tokens| {
+            tokens
+                .final_token
+                .as_ref()
+                .or(tokens.last_semicolon.as_ref())
+        })
         .or_else(|| {
             block
                 .get_last_statement()
